@@ -1424,4 +1424,13 @@ Tokens""")]),
                                     ),""", """                                    "doc": "\\n".join(
                                         line.lstrip() for line in scanned[return_tokens[0]][0][1:]
                                     ),""")]),
+    # ---- RETURN-CONST, DOC-ALL-LINES next-of-lines (C04)
+    dict(id="returnconst-rendered-to-source", kind=B, props=["C04"], expect="RETURN-CONST", edits=[("emitter_utils.py",
+         """                "default": get_value(e.value.elts[1])
+                if code_quoted(get_value(e.value.elts[1]))
+                else to_code(e.value.elts[1]).rstrip("\\n"),""", """                "default": to_code(e.value.elts[1]).rstrip("\\n"),""")]),
+    dict(id="docalllines-argparse-return-first-line", kind=B, props=["C04", "C18"], expect="DOC-ALL-LINES", edits=[("emitter_utils.py",
+         """                "doc": extract_default(
+                    return_doc,""", """                "doc": extract_default(
+                    next(line.partition(",")[2].lstrip() for line in get_value(function_def.body[0].value).split("\\n") if line.lstrip().startswith(":return")),""")]),
 ]
